@@ -262,6 +262,7 @@ def O3(inp, n):
     # observer joins / leaves
     r2 = Node('r2')
     keys0 = set(k.id for k in get(o, 'raftNextIndex'))
+    put(o, 'newAppendEntriesTime', now + 0.01)          # the voters' next heartbeat is almost due
     hb0, nsent0 = get(o, 'newAppendEntriesTime'), len(tr.sent)
     _, e1 = guard(getattr(o, P + 'onReadonlyNodeConnected'), r2)
     cl['observer_join_leaves_the_heartbeat_schedule_alone'] = Eq(get(o, 'newAppendEntriesTime'), hb0) and all(nd == r2 for nd, _ in tr.sent[nsent0:])
